@@ -472,6 +472,10 @@ def run(chk):
     cpv = repo.func(E, "copy_variable", "C08.R11")
     fcp = ff_for(chk, cpv, "C08.R11")
     rets = [n for n in own_nodes(cpv.node) if isinstance(n, ast.Return)]
+    # "no entry for this sub-index in the name list -> no member" (`return None` under `<name> is None`) is not a copy path
+    rets = [r_ for r_ in rets if not ((r_.value is None or (isinstance(r_.value, ast.Constant) and r_.value.value is None))
+                                      and any(p_ and isinstance(e_, ast.Compare) and isinstance(e_.ops[0], ast.Is) and isinstance(e_.comparators[0], ast.Constant) and e_.comparators[0].value is None
+                                              for e_, p_ in fcp.facts_at(r_)))]
     okc = len(rets) == 1 and isinstance(rets[0].value, ast.Name)
     if okc:
         v = rets[0].value.id
@@ -485,7 +489,7 @@ def run(chk):
         if f"{v}.name" in sts:
             nm = sts[f"{v}.name"].value
             nd = fcp.raw_def_at(nm.id, sts[f"{v}.name"]) if isinstance(nm, ast.Name) else nm
-            chk.check(nd is not None and src(nd) == "eds.get(section, str(subindex))", "R11", f"{E}:copy_variable | name from the list entry of that sub-index", cpv.loc(), f"name = {src(nd) if nd is not None else '?'}")
+            chk.check(nd is not None and src(nd) in ("eds.get(section, str(subindex))", "eds.get(section, str(subindex), fallback=None)"), "R11", f"{E}:copy_variable | name from the list entry of that sub-index", cpv.loc(), f"name = {src(nd) if nd is not None else '?'}")
     else:
         chk.unk("R11", f"{E}:copy_variable | shape", cpv.loc(), "expected one `return <name>`")
     # indirect (manufacturer) data types: every standard type code is taken literally
